@@ -1262,7 +1262,7 @@ func runATGeneric(t *testing.T, prop, mode string, seed uint64, planJSON []byte,
 			}
 		}
 	}
-	res.Harness = runBubble(t, func(t *testing.T) {
+	res.Harness = runBubbleP(t, plan, func(t *testing.T) {
 		r := setupAT(seed, tape, plan, prop, res)
 		if r == nil {
 			return
